@@ -29,6 +29,9 @@ type Solver struct {
 	out     *bufio.Reader
 	emitted []bool
 	ctx     *Ctx
+	// incremental path-condition stack: one push level per asserted conjunct
+	stack    []*Term
+	defsAt   [][]int // term ids defined at each level (index = level)
 	Log     io.Writer // optional transcript
 	// statistics
 	NSat, NUnsat, NUnknown int
@@ -61,6 +64,8 @@ func (s *Solver) start() error {
 		return err
 	}
 	s.emitted = nil
+	s.stack = nil
+	s.defsAt = [][]int{nil}
 	s.send("(set-option :print-success false)")
 	if s.timeoutMs > 0 && strings.Contains(s.Bin[0], "z3") {
 		s.send(fmt.Sprintf("(set-option :timeout %d)", s.timeoutMs))
@@ -147,6 +152,10 @@ func (s *Solver) define(t *Term) {
 			s.emitted = append(s.emitted, make([]bool, len(s.emitted)+1024)...)
 		}
 		s.emitted[tt.ID] = true
+		if tt.Op != OpConst {
+			lv := len(s.defsAt) - 1
+			s.defsAt[lv] = append(s.defsAt[lv], tt.ID)
+		}
 		switch tt.Op {
 		case OpConst:
 		case OpVar:
@@ -156,6 +165,105 @@ func (s *Solver) define(t *Term) {
 		}
 		stack = stack[:len(stack)-1]
 	}
+}
+
+func (s *Solver) pushLevel() {
+	s.send("(push 1)")
+	s.defsAt = append(s.defsAt, nil)
+}
+
+func (s *Solver) popLevels(n int) {
+	if n <= 0 {
+		return
+	}
+	s.send(fmt.Sprintf("(pop %d)", n))
+	for i := 0; i < n; i++ {
+		lv := len(s.defsAt) - 1
+		for _, id := range s.defsAt[lv] {
+			s.emitted[id] = false
+		}
+		s.defsAt = s.defsAt[:lv]
+	}
+}
+
+// CheckPC decides pc ∧ extra, keeping pc on the solver's assertion stack between calls so that
+// successive queries along one path (and its neighbours) are solved incrementally.
+func (s *Solver) CheckPC(pc []*Term, extra *Term, vars []*Term) (Result, map[string]uint64) {
+	t0 := time.Now()
+	defer func() { s.Time += time.Since(t0) }()
+	if extra != nil && extra.IsFalse() {
+		s.NUnsat++
+		return Unsat, nil
+	}
+	// common prefix
+	k := 0
+	for k < len(pc) && k < len(s.stack) && pc[k] == s.stack[k] {
+		k++
+	}
+	s.popLevels(len(s.stack) - k)
+	s.stack = s.stack[:k]
+	for _, t := range pc[k:] {
+		s.pushLevel()
+		if t.IsFalse() {
+			s.send("(assert false)")
+		} else if !t.IsTrue() {
+			s.define(t)
+			s.send("(assert " + t.Ref() + ")")
+		}
+		s.stack = append(s.stack, t)
+	}
+	s.pushLevel()
+	if extra != nil && !extra.IsTrue() {
+		s.define(extra)
+		s.send("(assert " + extra.Ref() + ")")
+	}
+	for _, v := range vars {
+		s.define(v)
+	}
+	res, model := s.finishCheck(vars)
+	if s.cmd != nil && len(s.defsAt) > 1 {
+		s.popLevels(1)
+	}
+	return res, model
+}
+
+func (s *Solver) finishCheck(vars []*Term) (Result, map[string]uint64) {
+	s.send("(check-sat)")
+	line, err := s.readLine()
+	for err == nil && line == "" {
+		line, err = s.readLine()
+	}
+	res := Unknown
+	var model map[string]uint64
+	switch {
+	case err != nil:
+		s.Errors = append(s.Errors, "solver died: "+err.Error())
+		s.Close()
+		s.start()
+		s.NUnknown++
+		return Unknown, nil
+	case line == "sat":
+		res = Sat
+	case line == "unsat":
+		res = Unsat
+	case line == "unknown" || line == "timeout":
+		res = Unknown
+	default:
+		s.Errors = append(s.Errors, line)
+		res = Unknown
+	}
+	if res == Sat && len(vars) > 0 {
+		model = s.getValues(vars)
+	}
+	switch res {
+	case Sat:
+		s.NSat++
+	case Unsat:
+		s.NUnsat++
+	default:
+		s.NUnknown++
+	}
+	return res, model
 }
 
 // Check decides satisfiability of the conjunction. If sat and vars != nil, returns their values.
@@ -174,7 +282,16 @@ func (s *Solver) Check(assertions []*Term, vars []*Term) (Result, map[string]uin
 	for _, v := range vars {
 		s.define(v)
 	}
-	s.send("(push 1)")
+	// drop the incremental path-condition stack: this query is independent of it
+	s.popLevels(len(s.stack))
+	s.stack = s.stack[:0]
+	for _, a := range assertions {
+		s.define(a)
+	}
+	for _, v := range vars {
+		s.define(v)
+	}
+	s.pushLevel()
 	for _, a := range assertions {
 		if a.IsTrue() {
 			continue
@@ -208,7 +325,7 @@ func (s *Solver) Check(assertions []*Term, vars []*Term) (Result, map[string]uin
 	if res == Sat && len(vars) > 0 {
 		model = s.getValues(vars)
 	}
-	s.send("(pop 1)")
+	s.popLevels(1)
 	switch res {
 	case Sat:
 		s.NSat++
